@@ -17,7 +17,7 @@ def fn(ex):
     return ex.task.label.split(':')[-1]
 
 
-def setup_cur_state(ex):
+def setup_cur_state(ex, below_limit=True):
     """the VMState of the evaluation in progress and its well-formedness (type invariants)"""
     sh = ex.engine.shapes
     ex.assume(CUR >= 0)
@@ -39,7 +39,8 @@ def setup_cur_state(ex):
     ex.assume(L.is_Int(h.fld('max_ops_evaluated', CUR)))
     ex.assume(ops(h) >= 0)
     ex.assume(max_ops(h) >= 1)
-    ex.assume(ops(h) < max_ops(h))
+    if below_limit:
+        ex.assume(ops(h) < max_ops(h))
     ex.assume(CAP >= F.MAX_ARRAY)
     g = F.G_FUNCTIONS()
     ex.assume(z3.And(g >= 0, g < ex.entry_next, g != sref))
